@@ -22,6 +22,13 @@ def load_corpus(props=None):
         for pid in [f"C{i:02d}" for i in range(1, 17)]:
             if props is None or pid in props:
                 out.append({"id": f"refactor-patch-{name}", "prop": pid, "kind": "refactor", "patch": path, "edits": [], "rule": None})
+    # a fourth batch of deliberately exotic rewrites (NamedTuples, callable registrar classes, checks rolled into loops over literals,
+    # namespace classes, mixins): no property may report a VIOLATION; an undecided verdict (exit 2) is tolerated and counted apart
+    for path in sorted(glob.glob(os.path.join(HERE, "selftest", "refactors_exotic", "*.diff"))):
+        name = os.path.basename(path)[:-5]
+        for pid in [f"C{i:02d}" for i in range(1, 17)]:
+            if props is None or pid in props:
+                out.append({"id": f"exotic-patch-{name}", "prop": pid, "kind": "refactor-soft", "patch": path, "edits": [], "rule": None})
     # kept seeded changes (independent sub-agents, confirmed): each must be reported by the property it targets
     for d in sorted(glob.glob(os.path.join(HERE, "seeded", "*"))):
         mp, pp = os.path.join(d, "meta.json"), os.path.join(d, "patch.diff")
@@ -82,16 +89,20 @@ def main():
     with cf.ThreadPoolExecutor(a.j) as ex:
         for entry, status, info in ex.map(lambda e: run_one(e, a.repo), corpus):
             res.append({"id": entry["id"], "prop": entry["prop"], "kind": entry["kind"], "status": status, "info": info})
-    bad = [r for r in res if r["status"] not in ("DETECTED", "SILENT")]
+    bad = [r for r in res if r["status"] not in ("DETECTED", "SILENT") and not (r["kind"] == "refactor-soft" and r["status"] == "UNDECIDED")]
     for r in sorted(res, key=lambda r: (r["prop"], r["id"])):
         print(f"{r['prop']} {r['kind']:8s} {r['status']:20s} {r['id']:45s} {r['info'][:100]}")
     nb = sum(1 for r in res if r["kind"] == "break")
     nd = sum(1 for r in res if r["kind"] == "break" and r["status"].startswith("DETECTED"))
     nr = sum(1 for r in res if r["kind"] == "refactor")
     ns = sum(1 for r in res if r["kind"] == "refactor" and r["status"] == "SILENT")
-    print(f"SELFTEST mutants_detected={nd}/{nb} refactors_silent={ns}/{nr}")
+    soft = [r for r in res if r["kind"] == "refactor-soft"]
+    n_soft_alarm = sum(1 for r in soft if r["status"] == "FALSE-ALARM")
+    n_soft_und = sum(1 for r in soft if r["status"] == "UNDECIDED")
+    print(f"SELFTEST mutants_detected={nd}/{nb} refactors_silent={ns}/{nr} exotic_runs={len(soft)} exotic_false_alarms={n_soft_alarm} exotic_undecided={n_soft_und}")
     if a.json:
-        json.dump({"results": res, "mutants_detected": nd, "mutants_total": nb, "refactors_silent": ns, "refactors_total": nr}, open(a.json, "w"), indent=1)
+        json.dump({"results": res, "mutants_detected": nd, "mutants_total": nb, "refactors_silent": ns, "refactors_total": nr,
+                   "exotic_runs": len(soft), "exotic_false_alarms": n_soft_alarm, "exotic_undecided": n_soft_und}, open(a.json, "w"), indent=1)
     return 0
 
 
